@@ -644,7 +644,24 @@ func (c *compiler) compile(tok *token) []instruction {
 		for i := len(tok.Tokens[switchCases].Tokens) - 1; i >= 0; i-- {
 			cs := tok.Tokens[switchCases].Tokens[i]
 			const caseStmt, caseBlock = 0, 1
-			csStmt := c.optimize(c.compile(cs.Tokens[caseStmt]))
+			// "case a, b:" matches when any of the listed values does
+			alts := []*token{cs.Tokens[caseStmt]}
+			if alts[0].Symbol == "," {
+				alts = alts[0].Tokens
+			}
+			var csStmt []instruction
+			for k, alt := range alts {
+				one := c.compile(alt)
+				if isValue && len(alts) > 1 {
+					one = append(one, instruction{Code: codeLocalGet, A: reg(v)}, instruction{Code: codeEq})
+				}
+				if k > 0 {
+					// the previous alternatives left their verdict on the stack: keep it if true
+					csStmt = append(csStmt, instruction{Code: codeOr, A: reg(len(one))})
+				}
+				csStmt = append(csStmt, one...)
+			}
+			csStmt = c.optimize(csStmt)
 			c.Begin()
 			csBlock := c.optimize(c.compileAll(cs.Tokens[caseBlock].Tokens))
 			for n, ins := range csBlock {
@@ -656,7 +673,7 @@ func (c *compiler) compile(tok *token) []instruction {
 			c.End()
 			var chunk []instruction
 			chunk = append(chunk, csStmt...)
-			if isValue {
+			if isValue && len(alts) == 1 {
 				chunk = append(chunk, instruction{Code: codeLocalGet, A: reg(v)})
 				chunk = append(chunk, instruction{Code: codeEq})
 			}
